@@ -45,14 +45,21 @@ def ref_spec(start=0.0, stop=5.0, dt=1.0, k=2.0, pts=None):
     }}
 
 
-def make_factory(start=0.0, stop=5.0, dt=1.0, sm="smSrv", scenarios=None):
-    """a factory that builds a *fresh* model and bptk object per call (the pattern of the repository's own servers)"""
+def make_factory(start=0.0, stop=5.0, dt=1.0, sm="smSrv", scenarios=None, shared_model=False):
+    """a factory that builds a *fresh* model and bptk object per call (the pattern of the repository's own servers);
+    shared_model=True: the model object is built once and registered in every bptk object the factory returns"""
     scenarios = scenarios or {"base": {}, "alt": {"constants": {"k": 3.0}}}
+    the_model = []
 
     def factory():
         from BPTK_Py import bptk
         b = bptk(loglevel="ERROR", configuration=dict(core.BPTK_CONF))
-        m = build_model(start, stop, dt)
+        if shared_model:
+            if not the_model:
+                the_model.append(build_model(start, stop, dt))
+            m = the_model[0]
+        else:
+            m = build_model(start, stop, dt)
         b.register_scenario_manager({sm: {"model": m}})
         b.register_scenarios(scenarios=copy.deepcopy(scenarios), scenario_manager=sm)
         return b
